@@ -140,6 +140,9 @@ func pkgProject(b []byte) map[string]interface{} {
 	out["odoc"] = odoc
 	parts := []map[string]interface{}{}
 	for _, n := range p.SortedNames() {
+		if strings.HasSuffix(n, "/") {
+			continue // a directory entry is not a part
+		}
 		ext := strings.TrimPrefix(path.Ext(n), ".")
 		isx := p.IsXMLPart(n)
 		wf := "-"
